@@ -58,6 +58,14 @@ CLAIMS["C03"] = dict(
     technique="Kani/CBMC contracts on Board::update_pin_info, xor, piece_on, color_on and the make_move tails against an eight-ray-walk spec; per-king-square case split with loop unwinding assertions",
 )
 
+CLAIMS["C14"] = dict(
+    category="proof",
+    text="len/size_hint, remove_mask and remove_move are extracted from the real source on every run (together with the BitBoard operators, to_square, popcnt, Square::new they call) and verified by Verus for move lists of ANY length against an abstract pending-count / slot view under the iterator invariant (loop invariants, no bound). next() and set_iterator_mask are decided by one-step contracts over arbitrary invariant states on the real NoDrop<ArrayVec> with at most 3 slots in Kani — a bounded stand-in, reported separately and not counted as proved. Two genuine defects found by these obligations were repaired (fix: commits, known_findings.txt).",
+    design_ref="DESIGN.md §6 C14",
+    note=TRUST + "Verus side: MoveList modelled as Vec with capacity constant (rule V6), count_ones spec assumed (same fact proved by Kani for popcnt), Square invariant (<64) as precondition; next/set_iterator_mask only bounded (<=3 slots); the composition 'masks partition the move set' is argued from the per-step contracts (count decreases by one, yielded move is the first pending one, permutation on set_iterator_mask), not mechanised as a trace lemma.",
+    technique="Verus loop-invariant proofs on mechanically extracted MoveGen methods (unbounded list length) + Kani one-step contracts on the real ArrayVec (bounded to 3 slots)",
+)
+
 NOT_YET = {}
 
 
